@@ -17,13 +17,13 @@ go test -vet=off -count=1 -run "^($run)\$" -timeout 300s . 2>&1 | grep -E "^(---
 rm -f $wt/$(basename $demo)
 echo "== (3) existing suite with patch"
 # the suite uses fixed ports, /dev/shm and /tmp paths: run it in private network+mount namespaces so that concurrent suites cannot
-# interfere; the test helpers use a 1 s handshake timeout, which fires spuriously on a loaded machine: such a run is retried (max 4).
+# interfere; TestBufferList_ConcurrentPutPop is flaky on the unmodified tree (the ABA known finding, DESIGN 0.3); the test helpers use a 1 s handshake timeout, which fires spuriously on a loaded machine: such a run is retried (max 4).
 r3=1
 for attempt in 1 2 3 4; do
   unshare -n -m bash -c "ip link set lo up; mount -t tmpfs tmpfs /dev/shm; mount -t tmpfs tmpfs /tmp; cd $wt && go test -vet=off -count=1 -timeout 25m . > /var/tmp/vs-suite-$id.log 2>&1; exit \$?"; r3=$?
   tail -n 3 /var/tmp/vs-suite-$id.log
   if [ $r3 = 0 ]; then break; fi
-  if grep -qE "init timeout:1000 ms|address already in use|panic: test timed out" /var/tmp/vs-suite-$id.log; then echo "  (attempt $attempt: environmental failure — handshake timeout under load / port clash / hang; retrying)"; else grep -E "^--- FAIL" /var/tmp/vs-suite-$id.log | head -5; break; fi
+  if grep -qE "init timeout:1000 ms|address already in use|panic: test timed out|FAIL: TestBufferList_ConcurrentPutPop" /var/tmp/vs-suite-$id.log; then echo "  (attempt $attempt: environmental failure — handshake timeout under load / port clash / hang; retrying)"; else grep -E "^--- FAIL" /var/tmp/vs-suite-$id.log | head -5; break; fi
 done
 rm -f /var/tmp/vs-suite-$id.log
 echo "RESULT $id demo_on_head=$r1 demo_with_patch=$r2 suite_with_patch=$r3 build=$r4"
